@@ -43,6 +43,16 @@ func NewHMACAuth(secrets [][]byte) *HMACAuth {
 	return a
 }
 
+// ShareReplayState lets a use the nonce cache of prev, the authenticator it
+// replaces after a configuration reload, so that a nonce honoured before the
+// reload stays spent afterwards. Call it before a is used.
+func (a *HMACAuth) ShareReplayState(prev *HMACAuth) {
+	if a == nil || prev == nil || prev.nonce == nil {
+		return
+	}
+	a.nonce = prev.nonce
+}
+
 // Verify checks:
 // - timestamp header is present and within tolerance
 // - nonce header is present and not reused within tolerance window
